@@ -44,6 +44,7 @@ class Exec:
         self.summaries: Dict[str, Any] = {}  # qualname -> hook(ex, fi, args, kwargs, st, node) -> Term | None
         self._prop_getters: Dict[int, FuncInfo] = {}
         self._dead = None
+        self._global_eval_busy = set()
         self.mac_axiom = False  # scenarios may assume that MACs (cipher blocks) of different inputs differ
         self.sym_bytes = False  # bytes(<known items>) yields an 'sbytes' value instead of an opaque call
         self.replaced_bases: set = set()
